@@ -253,6 +253,7 @@ type provider struct {
 	pending map[string]M
 	pendN   int
 	issuedRT map[string]bool // every refresh token this provider has handed out
+	tokenAnswers int         // successful token answers so far (varies expires_in)
 }
 
 // issued: called from the onRefresh / onExchange callbacks, which run with p.mu held
@@ -393,7 +394,13 @@ func (p *provider) RoundTrip(r *http.Request) (*http.Response, error) {
 		p.mu.Unlock()
 		switch ans.kind {
 		case "ok":
-			m := M{"id_token": ans.idToken, "access_token": "opaque-access-token", "expires_in": 3600, "token_type": "Bearer"}
+			// (the lifetime the provider states for its access token - an hour, a week, a year, none - is the provider's business: the
+			// middleware's cookies and sessions have their own 24 hours)
+			p.mu.Lock()
+			p.tokenAnswers++
+			ei := []int{3600, 604800, 300, 86401, 31536000, 0, 3600, 172800}[p.tokenAnswers%8]
+			p.mu.Unlock()
+			m := M{"id_token": ans.idToken, "access_token": "opaque-access-token", "expires_in": ei, "token_type": "Bearer"}
 			if ans.refresh != "" {
 				m["refresh_token"] = ans.refresh
 				p.mu.Lock()
